@@ -442,6 +442,36 @@ Module Toy.
   Definition t_loop_pars (r : nat) (c : config) (e : tval) : list (nat * tval) :=
     flat_map (fun a => if (a =? 0) && c_scalar c then [(0, [200])] else []) e.
 
+  (* flat encodings used by the correspondence run (printed by vm_compute, parsed by the
+     harness):  [r; align; scalar; stable?; #stable; ids..; helcoup; parent; child; ls;
+                 #dyn; sel; bld; ..; #topos; t..] *)
+  Definition enc_align (a : align) : nat :=
+    match a with NoAlign => 0 | AxisAngle => 1 | DPD n => 10 + n end.
+  Definition enc_cfg (r : nat) (c : config) : list nat :=
+    [r; enc_align (c_align c); Nat.b2n (c_scalar c)]
+    ++ match c_stable c with None => [0; 0] | Some s => 1 :: length s :: s end
+    ++ [Nat.b2n (c_helcoup c); Nat.b2n (f_parent (c_flags c)); Nat.b2n (f_child (c_flags c));
+        Nat.b2n (f_ls (c_flags c)); length (c_dyn c)]
+    ++ flat_map (fun sb => [fst sb; snd sb]) (c_dyn c)
+    ++ length (c_topos c) :: c_topos c.
+
+  Fixpoint list_eqb (l1 l2 : list nat) : bool :=
+    match l1, l2 with
+    | [], [] => true
+    | x :: r1, y :: r2 => (x =? y) && list_eqb r1 r2
+    | _, _ => false
+    end.
+  Fixpoint tdict_eqb (d1 d2 : list (nat * tval)) : bool :=
+    match d1, d2 with
+    | [], [] => true
+    | (k1, v1) :: r1, (k2, v2) :: r2 => (k1 =? k2) && list_eqb v1 v2 && tdict_eqb r1 r2
+    | _, _ => false
+    end.
+  Definition tmodel_eqb (a b : model tval) : bool :=
+    list_eqb (m_intensity a) (m_intensity b) && tdict_eqb (m_amps a) (m_amps b)
+    && tdict_eqb (m_pars a) (m_pars b) && tdict_eqb (m_kin a) (m_kin b)
+    && tdict_eqb (m_comps a) (m_comps b) && (m_reaction a =? m_reaction b).
+
   Section WithTopologies.
     Variable base_topos : nat -> list nat.
     Variable perms_of : nat -> list nat.
@@ -451,6 +481,12 @@ Module Toy.
                             t_moves t_align_syms t_xrepl t_new_masses t_loop_pars.
     Definition t_spec := formulate_spec t_register t_top t_topo_vars t_moves t_align_syms
                                         t_xrepl t_new_masses t_loop_pars.
+    (* per Formulate of a history: the encoded (reaction, config) and whether the toy
+       model equals the toy specification *)
+    Definition t_show (sk : skeleton) (ops : list op) : list (list nat * bool) :=
+      map (fun x => (enc_cfg (fst (fst x)) (snd (fst x)),
+                     tmodel_eqb (snd x) (t_spec (fst (fst x)) (snd (fst x)))))
+          (snd (t_run sk (init tval (list nat)) ops)).
   End WithTopologies.
 
   (* the skeleton of the current tree as read from the source (the harness re-derives it
